@@ -21,37 +21,55 @@ Proof.
 Qed.
 
 (* ---- specification-level views of the sender loop ---- *)
-Definition public_attrs (d : list (text * option obj)) : list (text * pyval) :=
+Definition public_attrs (skipc : bool) (d : list (text * option obj)) : list (text * pyval) :=
   flat_map (fun nv => if text_eqb (fst nv) ARGS then [] else if skipped (fst nv) then []
-                      else match snd nv with Some o => [(fst nv, norm o)] | None => [] end) d.
+                      else match snd nv with
+                           | Some o => if skipc && o_callable o then [] else [(fst nv, norm o)]
+                           | None => []
+                           end) d.
 Definition args_entries (d : list (text * option obj)) : nat :=
   List.length (filter (fun nv => text_eqb (fst nv) ARGS) d).
 
-Lemma walk_dir_snd args d : snd (walk_dir args d) = public_attrs d.
+Lemma walk_dir_snd k args d : snd (walk_dir k args d) = public_attrs k d.
 Proof.
   induction d as [|[n ov] d IH]; [reflexivity|]. cbn [walk_dir public_attrs flat_map fst snd].
-  destruct (walk_dir args d) as [a t]. cbn [snd] in IH. subst t.
-  destruct (text_eqb n ARGS); [reflexivity|]. destruct (skipped n); [reflexivity|]. destruct ov; reflexivity.
+  destruct (walk_dir k args d) as [a t]. cbn [snd] in IH. subst t.
+  destruct (text_eqb n ARGS); [reflexivity|]. destruct (skipped n); [reflexivity|]. destruct ov as [o|]; [|reflexivity].
+  destruct (k && o_callable o); reflexivity.
 Qed.
-Lemma walk_dir_fst args d :
-  fst (walk_dir args d) = flat_map (fun _ => map norm args) (filter (fun nv => text_eqb (fst nv) ARGS) d).
+Lemma walk_dir_fst k args d :
+  fst (walk_dir k args d) = flat_map (fun _ => map norm args) (filter (fun nv => text_eqb (fst nv) ARGS) d).
 Proof.
   induction d as [|[n ov] d IH]; [reflexivity|]. cbn [walk_dir filter fst].
-  destruct (walk_dir args d) as [a t]. cbn [fst] in IH. subst a.
-  destruct (text_eqb n ARGS); [reflexivity|]. destruct (skipped n); [reflexivity|]. destruct ov; reflexivity.
+  destruct (walk_dir k args d) as [a t]. cbn [fst] in IH. subst a.
+  destruct (text_eqb n ARGS); [reflexivity|]. destruct (skipped n); [reflexivity|]. destruct ov as [o|]; [|reflexivity].
+  destruct (k && o_callable o); reflexivity.
 Qed.
-Lemma walk_dir_once args d : args_entries d = 1%nat -> walk_dir args d = (map norm args, public_attrs d).
+Lemma walk_dir_once k args d : args_entries d = 1%nat -> walk_dir k args d = (map norm args, public_attrs k d).
 Proof.
-  intros H. rewrite (surjective_pairing (walk_dir args d)), walk_dir_snd, walk_dir_fst. f_equal.
+  intros H. rewrite (surjective_pairing (walk_dir k args d)), walk_dir_snd, walk_dir_fst. f_equal.
   unfold args_entries in H. destruct (filter _ d) as [|x [|y l]]; try discriminate. cbn. apply app_nil_r.
 Qed.
 
 (* the names that reach the wire never start with an underscore and are never "args"/ignored *)
-Lemma public_attrs_names d : Forall (fun na => skipped (fst na) = false /\ text_eqb (fst na) ARGS = false) (public_attrs d).
+Lemma public_attrs_names k d : Forall (fun na => skipped (fst na) = false /\ text_eqb (fst na) ARGS = false) (public_attrs k d).
 Proof.
   induction d as [|[n ov] d IH]; [constructor|]. cbn [public_attrs flat_map fst snd].
   destruct (text_eqb n ARGS) eqn:EA; [exact IH|]. destruct (skipped n) eqn:ES; [exact IH|].
-  destruct ov; [|exact IH]. constructor; [now split|exact IH].
+  destruct ov as [o|]; [|exact IH]. destruct (k && o_callable o); [exact IH|]. constructor; [now split|exact IH].
+Qed.
+
+(* on a tree whose dump leaves callables out, every pair that reaches the wire comes from a NON-callable attribute: no method of
+   the rebuilt object is shadowed by a text; on a tree that sends them, a method's repr travels as a data attribute *)
+Lemma public_attrs_not_callable d na : In na (public_attrs true d) ->
+  exists o, In (fst na, Some o) d /\ o_callable o = false /\ snd na = norm o.
+Proof.
+  induction d as [|[n ov] d IH]; [contradiction|]. cbn [public_attrs flat_map fst snd].
+  assert (K : In na (public_attrs true d) -> exists o, In (fst na, Some o) ((n, ov) :: d) /\ o_callable o = false /\ snd na = norm o).
+  { intros H. destruct (IH H) as (o & A & B). exists o. split; [now right|exact B]. }
+  destruct (text_eqb n ARGS); [exact K|]. destruct (skipped n); [exact K|]. destruct ov as [o|]; [|exact K].
+  cbn [andb]. destruct (o_callable o) eqn:EC; [exact K|]. intros H. apply in_app_or in H as [[<-|[]]|H]; [|now apply K].
+  exists o. cbn [fst snd]. split; [now left|now split].
 Qed.
 
 (* ---- loader pieces on genuine records ---- *)
@@ -106,9 +124,9 @@ Definition record (m n : text) (args : list pyval) (attrs : list (text * pyval))
 Lemma vdump_slow P fS ver tb e : fast_taken P e = false -> args_entries (e_dir e) = 1%nat ->
   vdump P fS ver tb e =
   record (fst (cls_key (e_cls e))) (snd (cls_key (e_cls e))) (map norm (e_args e))
-         (public_attrs (e_dir e) ++ [version_attr fS ver]) (tb_field fS tb).
+         (public_attrs (skip_callables P) (e_dir e) ++ [version_attr fS ver]) (tb_field fS tb).
 Proof.
-  intros HF HA. unfold vdump. rewrite HF, (walk_dir_once _ _ HA). destruct (cls_key (e_cls e)); reflexivity.
+  intros HF HA. unfold vdump. rewrite HF, (walk_dir_once _ _ _ HA). destruct (cls_key (e_cls e)); reflexivity.
 Qed.
 
 Lemma build_genuine E eff rc args l fS ver tb :
@@ -127,7 +145,7 @@ Theorem builtin_fidelity_slow M P fS fR E ver tb e n :
   vload M fR E (vdump P fS ver tb e) =
     ([ENew (Real (Builtin n))],
      Ok (LExc (Real (Builtin n)) (PTuple (map norm (e_args e)))
-              (map set_of (public_attrs (e_dir e) ++ [version_attr fS ver]))
+              (map set_of (public_attrs (skip_callables P) (e_dir e) ++ [version_attr fS ver]))
               (Done (tb_field fS tb) (version_warn fS E ver)))).
 Proof.
   intros HC HA HB HF. rewrite (vdump_slow _ _ _ _ _ HF HA), HC. cbn [cls_key fst snd]. unfold record, vload.
@@ -172,8 +190,8 @@ Qed.
 (* 1''. on a tree whose fast path is unconditional the arguments of StopIteration are lost (finding F9) *)
 Definition stop_x : exc :=
   {| e_cls := Builtin STOP_ITERATION;
-     e_args := [{| o_val := PStr (txt "x"); o_repr := txt "'x'" |}];
-     e_dir := [(ARGS, None); (txt "value", Some {| o_val := PStr (txt "x"); o_repr := txt "'x'" |})] |}.
+     e_args := [{| o_val := PStr (txt "x"); o_repr := txt "'x'"; o_callable := false |}];
+     e_dir := [(ARGS, None); (txt "value", Some {| o_val := PStr (txt "x"); o_repr := txt "'x'"; o_callable := false |})] |}.
 Theorem builtin_fidelity_refuted M P fS fR E ver tb : fast_noargs_only P = false ->
   args_entries (e_dir stop_x) = 1%nat /\ routed fS (e_cls stop_x) = false /\
   map norm (e_args stop_x) = [PStr (txt "x")] /\
@@ -471,7 +489,7 @@ Qed.
 Theorem fastpath_dump P fS ver tb e : vdump P fS ver tb e = PInt EXC_STOP <-> fast_taken P e = true.
 Proof.
   unfold vdump. destruct (fast_taken P e); [easy|]. split; [|discriminate].
-  destruct (walk_dir _ _), (cls_key _). discriminate.
+  destruct (walk_dir _ _ _), (cls_key _). discriminate.
 Qed.
 
 Lemma build_not_stop E eff rc ok a t b : snd (build E eff rc ok a t b) <> Ok LStop.
@@ -542,13 +560,61 @@ Proof.
    intros [= <-]; left; exact (run_prog_raise _ _ _ _ _ _ _ ER)).
 Qed.
 
+(* failures while filling the object in: [Fail] *)
+Lemma do_sets_raise items sets e : do_sets items = (sets, Raise e) -> e = TypeError \/ e = ValueError.
+Proof.
+  revert sets. induction items as [|it rest IH]; intros sets; [discriminate|]. cbn [do_sets].
+  destruct (unpack 2 it) as [[|n [|v [|? ?]]]| | |] eqn:U; try discriminate; try (intros [= _ <-]; auto; fail).
+  - destruct (do_sets rest) as [s0 r0]. intros [= _ ->]. now apply (IH s0).
+  - intros [= _ <-]. now apply unpack_raise in U.
+Qed.
+Lemma status_fail E sets tb e : status_of E sets tb = Fail e -> e = TypeError \/ e = AttributeError.
+Proof.
+  unfold status_of. destruct (last_version sets) as [[]|]; try discriminate; try (intros [= <-]; auto; fail).
+  destruct (text_eqb _ _); [discriminate|]. destruct (text_eqb _ _); [discriminate|]. destruct tb; try discriminate; intros [= <-]; auto.
+Qed.
+Lemma build_fail E eff rc ok a t b c x y e : snd (build E eff rc ok a t b) = Ok (LExc c x y (Fail e)) ->
+  e = TypeError \/ e = ValueError \/ e = AttributeError.
+Proof.
+  unfold build. destruct (negb ok); [discriminate|].
+  destruct (iter_elems true t) as [items|e0| |] eqn:EI; try discriminate.
+  - destruct (do_sets items) as [s0 [u|x0| |]] eqn:ED; try discriminate.
+    + intros [= _ _ _ H]. apply status_fail in H as [->| ->]; auto.
+    + intros [= _ _ _ <-]. apply do_sets_raise in ED as [->| ->]; auto.
+  - intros [= _ _ _ <-]. apply iter_elems_raise in EI as ->. auto.
+Qed.
+Lemma generic_fail E eff m n a t b c x y e : snd (generic_or_fail E eff m n a t b) = Ok (LExc c x y (Fail e)) ->
+  e = TypeError \/ e = ValueError \/ e = AttributeError.
+Proof. unfold generic_or_fail. destruct (generic_name_check m n); try discriminate. apply build_fail. Qed.
+
+Theorem vload_failure_kinds M fR E v e : load_failure (snd (vload M fR E v)) = Some e ->
+  e = TypeError \/ e = ValueError \/ e = UnicodeError \/ e = AttributeError.
+Proof.
+  unfold load_failure. destruct (snd (vload M fR E v)) as [[| |c x y [tb w|e0]]|e0| |] eqn:EV; try discriminate; intros [= <-].
+  - assert (K : e0 = TypeError \/ e0 = ValueError \/ e0 = AttributeError); [|destruct K as [->|[->| ->]]; auto].
+    revert EV. unfold vload. destruct (py_eq_one v); [discriminate|].
+    destruct v; try discriminate;
+    (destruct (unpack 4 _) as [[|key [|args [|attrs [|tb [|? ?]]]]]| | |]; try discriminate;
+     destruct (unpack 2 key) as [[|modname [|clsname [|? ?]]]| | |]; try discriminate; cbv zeta;
+     destruct (run_prog _ _ _ _ _ _ _) as [[[c0 ok| |imps [[c0 ok]|]]|]| | |]; try discriminate;
+     first [apply build_fail|apply generic_fail]).
+  - destruct (vload_raise_kinds _ _ _ _ _ EV) as [->|[->| ->]]; auto.
+Qed.
+
 Theorem exception_reaches_request M fR E v : forall e, dispatch_exception true (snd (vload M fR E v)) <> Escapes e.
 Proof.
-  intros e. unfold dispatch_exception. destruct (snd (vload M fR E v)) as [l|x| |] eqn:EV; try discriminate.
-  destruct (vload_raise_kinds _ _ _ _ _ EV) as [->|[->| ->]]; discriminate.
+  intros e. unfold dispatch_exception. destruct (load_failure (snd (vload M fR E v))) as [x|] eqn:EL.
+  - destruct (vload_failure_kinds _ _ _ _ _ EL) as [->|[->|[->| ->]]]; discriminate.
+  - destruct (snd (vload M fR E v)); discriminate.
 Qed.
 Theorem exception_escapes_refuted M fR E : dispatch_exception false (snd (vload M fR E (PInt 2))) = Escapes TypeError.
 Proof. reflexivity. Qed.
+(* a failure that arises only after the object exists also escapes the inline dispatch *)
+Theorem exception_escapes_refuted_fail M :
+  dispatch_exception false (snd (vload M {| import_custom := false; inst_custom := false; inst_oldstyle := false |} hook_env
+     (PTuple [PTuple [PStr (txt "nosuchmod"); PStr (txt "Bar")]; PTuple []; PTuple [PTuple [PStr REMOTE_VERSION; PInt 4]]; PStr (txt "tb")])))
+  = Escapes AttributeError.
+Proof. destruct M; reflexivity. Qed.
 
 (* ---- 5. disclosure: what the sender's two switches deny never reaches the wire ---- *)
 Theorem tb_not_disclosed P fS ver tb1 tb2 e : incl_tb fS = false -> vdump P fS ver tb1 e = vdump P fS ver tb2 e.
@@ -560,17 +626,18 @@ Proof. intros H. unfold vdump, version_attr. now rewrite H. Qed.
 Lemma norm_dumpable o : dumpable (norm o) = true.
 Proof. unfold norm. destruct (dumpable (o_val o)) eqn:E; [exact E|reflexivity]. Qed.
 
-Lemma public_attrs_dumpable d : forallb dumpable (map attr_pair (public_attrs d)) = true.
+Lemma public_attrs_dumpable k d : forallb dumpable (map attr_pair (public_attrs k d)) = true.
 Proof.
   induction d as [|[n ov] d IH]; [reflexivity|]. cbn [public_attrs flat_map fst snd].
-  destruct (text_eqb n ARGS); [exact IH|]. destruct (skipped n); [exact IH|]. destruct ov; [|exact IH].
-  cbn [app map forallb attr_pair fst snd dumpable]. fold (public_attrs d). rewrite norm_dumpable. exact IH.
+  destruct (text_eqb n ARGS); [exact IH|]. destruct (skipped n); [exact IH|]. destruct ov as [o|]; [|exact IH].
+  destruct (k && o_callable o); [exact IH|].
+  cbn [app map forallb attr_pair fst snd dumpable]. fold (public_attrs k d). rewrite norm_dumpable. exact IH.
 Qed.
 
 Theorem vdump_dumpable P fS ver tb e : dumpable (vdump P fS ver tb e) = true.
 Proof.
   unfold vdump. destruct (fast_taken P e); [reflexivity|].
-  rewrite (surjective_pairing (walk_dir _ _)), walk_dir_snd, walk_dir_fst. destruct (cls_key _) as [m n].
+  rewrite (surjective_pairing (walk_dir _ _ _)), walk_dir_snd, walk_dir_fst. destruct (cls_key _) as [m n].
   cbn [dumpable forallb]. rewrite map_app, forallb_app, public_attrs_dumpable. cbn [map forallb attr_pair fst snd version_attr dumpable andb].
   rewrite andb_true_r.
   assert (HA : forallb dumpable (map norm (e_args e)) = true).
